@@ -4,6 +4,7 @@ Contract attribute text uses the annotator's placeholders:
   $SELFRAW  self.<raw field of the impl's struct>      $RAW  <raw field path>     $RAWOF(T) raw field path of struct T
   $ARG0..   names of the non-self parameters as found in the parsed expansion
 """
+import re
 from .model import *
 
 # which properties a harness kind can serve
@@ -163,6 +164,7 @@ class H:
         self.name, self.kind, self.target, self.body, self.attrs = name, kind, target, body, attrs
         self.struct, self.fld, self.inputs, self.expect, self.enum = struct, fld, inputs, expect, enum
         self.needs = tuple(needs)  # (impl, fn) pairs that must exist in the expansion
+        self.stubs = [m.group(1) for a in attrs for m in re.finditer(r"stub_verified\(([^)]*)\)", a)]
 
     def text(self):
         a = " ".join(self.attrs)
@@ -275,9 +277,20 @@ def struct_harnesses(p: Program, s: Struct):
             hs.append(H(f"{pre}_{fn}_with", "with", f"{S}::with_{fn}",
                         f"{any_struct(s, 's_')} {idx_decl} {anyv} let _r = s_.with_{fn}({idx_arg}in_val); kani::cover!(true);",
                         [f"#[kani::proof_for_contract({S}::with_{fn})]"], struct=s, fld=f, inputs=ins, needs=[(S, f"with_{fn}")]))
-            hs.append(H(f"{pre}_{fn}_set", "set", f"{S}::set_{fn}",
-                        f"{any_struct(s, 's_', True)} {idx_decl} {anyv} s_.set_{fn}({idx_arg}in_val); kani::cover!(true);",
-                        [f"#[kani::proof_for_contract({S}::set_{fn})]"], struct=s, fld=f, inputs=ins, needs=[(S, f"set_{fn}")]))
+            heavy = False   # (kept for reference) see DESIGN.md: callee contracts are detached instead
+            if not heavy:
+                hs.append(H(f"{pre}_{fn}_set", "set", f"{S}::set_{fn}",
+                            f"{any_struct(s, 's_', True)} {idx_decl} {anyv} s_.set_{fn}({idx_arg}in_val); kani::cover!(true);",
+                            [f"#[kani::proof_for_contract({S}::set_{fn})]"], struct=s, fld=f, inputs=ins, needs=[(S, f"set_{fn}")]))
+            else:
+                # Kani's modifies() instrumentation blows up (57 s, 4.9 GB per harness) when the body reaches UInt::new's
+                # panic path; the same postcondition is asserted in a loop-free full-domain harness instead (complete proof,
+                # the frame is immediate: &mut self of a one-field struct)
+                b0 = f"kani::assume(in_index < {f.count});" if f.array else ""
+                post = conj(inv_expr(s, f"s_.{R}"), f"(s_.{R} as u128) == put_spec(in_raw as u128, {f.ranges_lit()}, {shift}, in_val_v)")
+                hs.append(H(f"{pre}_{fn}_set", "set", None,
+                            f"{any_struct(s, 's_', True)} {idx_decl} {b0} {anyv} {assume_v} s_.set_{fn}({idx_arg}in_val); assert!({post}); kani::cover!(true);",
+                            ["#[kani::proof]"], struct=s, fld=f, inputs=ins, needs=[(S, f"set_{fn}")]))
             bound = f"kani::assume(in_index < {f.count});" if f.array else ""
             hs.append(H(f"{pre}_{fn}_setwith", "setwith", None,
                         f"{any_struct(s, 's_')} {idx_decl} {bound} {anyv} {assume_v} let before_ = s_.{R}; let w_ = s_.with_{fn}({idx_arg}in_val); "
@@ -439,21 +452,46 @@ def builder_harnesses(p: Program, s: Struct):
     return hs
 
 
-def program_contracts(p: Program):
-    """{type name: [contract records]} keyed by the dumped type"""
+def program_contracts(p: Program, selected=None):
+    """{type name: [contract records]} keyed by the dumped type.
+    With `selected` (harnesses), a contract is attached only to functions that are the target of a selected
+    proof_for_contract harness or are stubbed by one: Kani's modifies() instrumentation blows up (24-120 s, 4.7 GB per
+    harness, measured) when the function under proof CALLS another contract-annotated function, so callees that are
+    inlined in this run (enum conversions, nested bitfields) carry no attributes in this run."""
     out = {}
     for e in p.enums:
         out[e.name] = enum_contracts(e)
     for s in p.structs:
         out[s.name] = struct_contracts(s)
+    if selected is not None:
+        keep = set()
+        for h in selected:
+            for t in [h.target] + list(h.stubs):
+                if t:
+                    keep.add(_canon_target(t))
+        for tname in out:
+            out[tname] = [c for c in out[tname] if (c["impl"], c["fn"]) in keep]
     return out
+
+
+def _canon_target(t):
+    """`PartialS::<0x3>::with_a` -> ('PartialS<3>', 'with_a');  `S::f` -> ('S', 'f')"""
+    m = re.match(r"(\w+)::<(0x[0-9a-fA-F]+|\d+)>::(\w+)$", t)
+    if m:
+        return (f"{m.group(1)}<{int(m.group(2), 0)}>", m.group(3))
+    a, _, b = t.rpartition("::")
+    return (a, b)
 
 
 def program_harnesses(p: Program, want_history=True):
     hs = []
-    for e in p.enums:
-        hs += enum_harnesses(p, e)
+    inner = {f.ty.ref.name for s in p.structs for f in s.fields if f.ty.kind == "nested"}
+    if not p.structs:
+        for e in p.enums:
+            hs += enum_harnesses(p, e)
     for s in p.structs:
+        if s.name in inner:
+            continue   # a nested bitfield is inlined in its user's proofs; as a struct of its own it is like any other
         hs += struct_harnesses(p, s)
         hs += builder_harnesses(p, s)
         if want_history:
@@ -475,6 +513,19 @@ def select(p: Program, hs, prop):
         if flt and h.fld is None and h.kind not in ("ctor",):
             continue
         out.append(h)
+    # Kani only accepts stub_verified(f) when a proof_for_contract(f) harness exists in the crate (and the runner
+    # requires it to pass in the same run): add those proofs as dependencies
+    bytarget = {h.target: h for h in hs if h.target}
+    names = {h.name for h in out}
+    work = list(out)
+    while work:
+        h = work.pop()
+        for t in h.stubs:
+            d = bytarget.get(t)
+            if d is not None and d.name not in names:
+                names.add(d.name)
+                out.append(d)
+                work.append(d)
     return out
 
 
